@@ -114,6 +114,8 @@ impl Socket {
         timeout: Duration,
     ) -> Responded {
         let inner = Arc::new(Mutex::new(RespondedInner::new(timeout)));
+        #[cfg(btdht_verif)]
+        crate::verif_log::record(format!("REG {from} {}", crate::verif_log::hex(&transaction_id)));
         assert!(self
             .transactions
             .lock()
@@ -165,6 +167,12 @@ pub(crate) struct Responded {
 
 impl Drop for Responded {
     fn drop(&mut self) {
+        #[cfg(btdht_verif)]
+        crate::verif_log::record(format!(
+            "UNREG {} {}",
+            self.from,
+            crate::verif_log::hex(&self.transaction_id)
+        ));
         self.transactions
             .lock()
             .unwrap()
